@@ -306,10 +306,6 @@ pub fn write_step(rng: &mut Rng, ki: Option<usize>, vi: usize, len: u64, cfg: &W
                 let i = rng.idx(c.len());
                 st["flush_after"] = json!([i]);
             }
-            if cfg.ends && c.len() >= 2 && rng.chance(1, 6) {
-                // one write is given up after a single poll and the caller moves on (async flavours only)
-                st["abandon_chunks"] = json!([rng.idx(c.len() - 1)]);
-            }
             st["chunks"] = json!(c);
         }
     }
@@ -675,7 +671,7 @@ pub fn gen_c16(rng: &mut Rng) -> Value {
         w_list: 0,
         audit_every: 4,
         audit_what: &["read", "read_hash", "exists"],
-        wcfg: WriteCfg { by_hash_pct: 30, rich_opts: false, declare_size_pct: 30, algos: true, ends: true },
+        wcfg: WriteCfg { by_hash_pct: 30, rich_opts: false, declare_size_pct: 30, algos: true, ends: false },
     };
     let mut sc = gen_history(rng, &m);
     // writers whose declared size is wrong are rejected - and must leave the copy that is already stored byte-identical
